@@ -4,6 +4,7 @@
 //!   * every UUID (manifest labels `urn:c2pa:<uuid>`, `xmp:iid:<uuid>`, instance ids) — manifest
 //!     labels are renamed to `M-<fingerprint>` where the fingerprint is the hash of that manifest's
 //!     own JSON with UUIDs blanked, so "which manifest is active / referenced" stays visible;
+//!   * the order of entries inside `validation_results` / `validation_status` arrays (sorted);
 //!   * nothing else: signing time only appears when a time-stamp exists and is then deterministic
 //!     for canned tokens.
 use c2pa::{Context, Reader};
@@ -101,7 +102,32 @@ pub fn norm_report_value(v: &Value) -> Value {
             }
         }
     }
-    walk(v, &|u| names.get(&u.to_lowercase()).cloned().unwrap_or_else(|| "UUID".to_string()))
+    let mut out = walk(v, &|u| names.get(&u.to_lowercase()).cloned().unwrap_or_else(|| "UUID".to_string()));
+    // the *order* of validation status entries / ingredient deltas follows box order in the store and
+    // is not manifest content: canonicalise it (the entries themselves are compared exactly)
+    for key in ["validation_results", "validation_status"] {
+        if let Some(vr) = out.get_mut(key) {
+            sort_arrays(vr);
+        }
+    }
+    out
+}
+
+fn sort_arrays(v: &mut Value) {
+    match v {
+        Value::Array(a) => {
+            for x in a.iter_mut() {
+                sort_arrays(x);
+            }
+            a.sort_by_key(|x| x.to_string());
+        }
+        Value::Object(m) => {
+            for (_, x) in m.iter_mut() {
+                sort_arrays(x);
+            }
+        }
+        _ => {}
+    }
 }
 
 pub fn norm_report(json: &str) -> Value {
@@ -246,4 +272,43 @@ pub fn catch_sdk<T>(f: impl FnOnce() -> T) -> Result<T, String> {
     let r = std::panic::catch_unwind(std::panic::AssertUnwindSafe(f));
     ARMED.with(|a| a.set(a.get() - 1));
     r.map_err(|p| format!("{} at {}", panic_msg(&p), take_panic_location().unwrap_or_default()))
+}
+
+/// Lists up to `max` JSON paths at which `a` and `b` differ (with both values, truncated).
+pub fn diff_paths(a: &Value, b: &Value, max: usize) -> Vec<String> {
+    fn short(v: &Value) -> String {
+        let s = v.to_string();
+        if s.len() > 160 {
+            format!("{}…", &s[..160])
+        } else {
+            s
+        }
+    }
+    fn go(a: &Value, b: &Value, path: String, out: &mut Vec<String>, max: usize) {
+        if out.len() >= max || a == b {
+            return;
+        }
+        match (a, b) {
+            (Value::Object(x), Value::Object(y)) => {
+                let keys: std::collections::BTreeSet<&String> = x.keys().chain(y.keys()).collect();
+                for k in keys {
+                    match (x.get(k), y.get(k)) {
+                        (Some(p), Some(q)) => go(p, q, format!("{path}/{k}"), out, max),
+                        (Some(p), None) => out.push(format!("{path}/{k}: only in first = {}", short(p))),
+                        (None, Some(q)) => out.push(format!("{path}/{k}: only in second = {}", short(q))),
+                        _ => {}
+                    }
+                }
+            }
+            (Value::Array(x), Value::Array(y)) if x.len() == y.len() => {
+                for (i, (p, q)) in x.iter().zip(y.iter()).enumerate() {
+                    go(p, q, format!("{path}[{i}]"), out, max);
+                }
+            }
+            _ => out.push(format!("{path}: {} != {}", short(a), short(b))),
+        }
+    }
+    let mut out = Vec::new();
+    go(a, b, String::new(), &mut out, max);
+    out
 }
